@@ -222,6 +222,9 @@ pub fn c11(ctx: &mut Ctx) {
         let sp = super::bytes::dense_chain_space(nd);
         ctx.bound("chains of every length", format!("datagrams of every tile count 1..={} x 4 tails (exact, last length field + 1, a stray byte, a header claiming more than is left)", nd));
         sp.run(ctx, &sp.name, 0, |s, l| c11_case(s, l));
+        let sp = super::bytes::big_chain_space();
+        ctx.bound("mid-size tiles across 64K and 256K", "datagrams of 1100 / 1400 / 4000 / 24000-byte tiles whose total crosses 65507, 65536 and 262144 bytes x 4 tails");
+        sp.run(ctx, &sp.name, 0, |s, l| c11_case(s, l));
         let sp = super::bytes::dense_total_space(nd);
         ctx.bound("datagrams of every total size", format!("three unremarkable tiles whose sizes sum to every total 24..={} bytes, exactly tiled and with a stray byte", nd * 4));
         sp.run(ctx, &sp.name, 0, |s, l| c11_case(s, l));
